@@ -25,23 +25,30 @@ Definition hist_case_ok (c : hist_case) : bool :=
 Definition hist_mismatches := bad_indices hist_case_ok.
 
 (* ---- suite meter: (initial history file, events, emissions observed per event, final history file)
-   event = (kind, records (slot, energy), slot) ; kind 0 = tick, 1 = restart, 2 = resend of [slot] *)
-Definition meter_ev := (Z * list (Z * Z) * Z)%type.
+   event = (kind, records (slot, energy), from, n):
+     kind 0 = tick, 1 = restart, 2 = the sync loop scans slots from .. from+n-1 (retransmissions),
+     kind 3+k = one tick followed by 1+k such scans (their datagrams are collected together) *)
+Definition meter_ev := (Z * list (Z * Z) * Z * Z)%type.
 Definition meter_case := (bytes * list meter_ev * list (list (Z * Z)) * bytes)%type.
 
-Definition to_ev (e : meter_ev) : ev :=
-  let '(k, recs, t) := e in
+Fixpoint resend_range (from : Z) (n : nat) : list ev :=
+  match n with O => [] | S n' => Resend from :: resend_range (from + 1) n' end.
+
+Definition to_evs (e : meter_ev) : list ev :=
+  let '(k, recs, from, n) := e in
   let rs := map (fun p => {| rc_ts := fst p; rc_en := snd p |}) recs in
-  if k =? 0 then Tick rs else if k =? 1 then Restart rs else Resend t.
+  if k =? 0 then [Tick rs] else if k =? 1 then [Restart rs]
+  else if k =? 2 then resend_range from (Z.to_nat n)
+  else Tick rs :: concat (repeat (resend_range from (Z.to_nat n)) (Z.to_nat (k - 2))).
 
 Definition em_eqb (a b : Z * Z) : bool := (fst a =? fst b) && (snd a =? snd b).
 
-(* emissions of each event separately *)
-Fixpoint meter_run (origin : Z) (x : trace) (evs : list ev) : trace * list (list (Z * Z)) :=
+(* emissions of each event group separately *)
+Fixpoint meter_run (origin : Z) (x : trace) (evs : list (list ev)) : trace * list (list (Z * Z)) :=
   match evs with
   | [] => (x, [])
-  | e :: evs' =>
-      let x1 := step origin {| tr_st := tr_st x; tr_out := []; tr_acc := [] |} e in
+  | g :: evs' =>
+      let x1 := fold_left (step origin) g {| tr_st := tr_st x; tr_out := []; tr_acc := [] |} in
       let '(x2, outs) := meter_run origin x1 evs' in (x2, tr_out x1 :: outs)
   end.
 
@@ -51,7 +58,7 @@ Definition meter_case_ok (c : meter_case) : bool :=
   | None => false
   | Some o =>
       let '(x, os) := meter_run o {| tr_st := {| cs_hist := h0; cs_latest := 0 |}; tr_out := []; tr_acc := [] |}
-                                (map to_ev evs) in
+                                (map to_evs evs) in
       bytes_eqb (cs_hist (tr_st x)) final && list_eqb (list_eqb em_eqb) os outs
   end.
 Definition meter_mismatches := bad_indices meter_case_ok.
